@@ -51,8 +51,12 @@ ASSUMPTIONS = [
 ]
 
 
-def cmp_line(op, x, snapv, asserting):
+def cmp_line(op, x, snapv, asserting, name=None):
     s = f"snapshot({snapv})" if snapv is not None else "snapshot()"
+    if name:
+        # the snapshot object was bound to a variable before: compared several times without being re-created
+        e = {"eq": f"{x} == {name}", "req": f"{name} == {x}", "le": f"{x} <= {name}", "ge": f"{x} >= {name}", "in": f"{x} in {name}", "getitem": f"{name}['k'] == {x}"}[op]
+        return ("assert " + e) if asserting else ("_ = " + e)
     e = {"eq": f"{x} == {s}", "req": f"{s} == {x}", "le": f"{x} <= {s}", "ge": f"{x} >= {s}", "in": f"{x} in {s}"}.get(op)
     if op == "getitem":
         if snapv is None:
@@ -72,7 +76,7 @@ def wrong_value(op, x):
 
 def make_test(rng, k):
     n = rng.randint(1, 4)
-    bad_kind = rng.choice([None, None, "empty", "wrong", "wrong", "wrong-in-loop", "missing-key"])
+    bad_kind = rng.choice([None, None, "empty", "wrong", "wrong", "wrong-in-loop", "missing-key", "wrong-later-shared-object"])
     bad_pos = rng.randrange(n)
     lines = []
     meta = {"bad": bad_kind is not None, "kind": bad_kind or "good", "pos": "first" if bad_pos == 0 else "last" if bad_pos == n - 1 else "middle", "ops": []}
@@ -90,6 +94,13 @@ def make_test(rng, k):
             elif bad_kind == "missing-key":
                 lines.append(("assert " if asserting else "_ = ") + f"snapshot({{'other': 1}})['k'] == {x}")
                 meta["ops"][-1] = "getitem"
+            elif bad_kind == "wrong-later-shared-object":
+                # one snapshot object (created once), first comparisons hold, a later one does not
+                seq = {"eq": [x, x, x + 1], "req": [x, x + 1], "le": [x, x + 1, x + 20], "ge": [x, x - 1, x - 20], "in": [x, x + 1, x + 50], "getitem": [x, x, x + 2]}[op]
+                snapv = {"eq": repr(x), "req": repr(x), "le": repr(x + 3), "ge": repr(x - 3), "in": repr([x, x + 1]), "getitem": repr({"k": x})}[op]
+                lines.append(f"shared_{i} = snapshot({snapv})")
+                lines.append(f"for v in {seq!r}:")
+                lines.append("    " + cmp_line(op, "v", snapv, asserting, name=f"shared_{i}"))
             else:  # the first iterations hold, a later one does not
                 if op in ("eq", "req", "getitem"):
                     op = "le"
